@@ -116,6 +116,11 @@ func c01(r *core.Report) {
 	r.Rule("C01-BORROW-RECV", "no alias of a received message's payload is written or outlives the callback", 9)
 	ruleBorrowRecv(r, h, bw, "C01-BORROW-RECV")
 
+	// ---- C01-FRAG-ID (shared with C10-ID-ATOMIC): no mixture of messages at the receiver needs unique
+	// fragment ids per (sender, destination)
+	r.Rule("C01-FRAG-ID", "a fragmented message's id is read and advanced in one critical section (or by one atomic add)", 2)
+	ruleFragIDAtomic(r, "C01-FRAG-ID")
+
 	// ---- C01-ADDR-PROVENANCE
 	r.Rule("C01-ADDR-PROVENANCE", "re-wrapped messages keep source as source and destination as destination", 10)
 	nProv := 0
